@@ -21,6 +21,7 @@ RULE = ("requests `mulr|divr|quant <form> <lhs> <rhs> [n]` under each of the 8 t
         "intermediate beyond i128")
 BUILDS = {"quick": [("dev", ()), ("release", ())],
           "thorough": [("dev", ()), ("release", ()), ("release", ("packed",)), ("o0-nochk", ())]}
+ASSUMPTIONS = [C.GRID_NOTE]
 REQUIRED_SITES = {"round_quot.overflow": 2, "divr.eq": 100, "divr.less.narrow": 100, "divr.less.wide": 100, "divr.greater.fit": 100,
                   "divr.greater.ovf": 50, "mulr.exact": 100, "mulr.narrow": 100, "mulr.wide": 50,
                   "round_quot.tie": 100}
@@ -262,6 +263,14 @@ def gen(rng, tier, shard, batch):
     for mode in MODES:
         reqs.append("mode " + mode)
         reqs += mine
+        if batch == 0:
+            for i, (a, p, b, q) in enumerate(C.small_grid(tier, shard, E.NCPU)):
+                n = (0, 1, 2, 17, 18)[i % 5]
+                reqs.append("divr vv %s %s %d" % (G.fD(a, p), G.fD(b, q), n))
+                if i % 2:
+                    reqs.append("mulr vv %s %s %d" % (G.fD(a, p), G.fD(b, q), n))
+                else:
+                    reqs.append("quant vv %s %s" % (G.fD(a, p), G.fD(b, q)))
         for _ in range(N_RANDOM[tier]):
             k = rng.random()
             n = rng.randrange(0, 19)
